@@ -312,13 +312,13 @@ func fracStr(d interface{ String() string }) string { return d.String() }
 
 func (w *World) slashJail(p *providertypes.SlashJailParameters) map[string]any {
 	if p == nil {
-		return map[string]any{"frac": "nil", "jail": 0, "tomb": false}
+		return map[string]any{"frac": "nil", "jail": 0, "tomb": false, "fracBp": 0}
 	}
 	jail := int64(p.JailDuration.Seconds())
 	if jail > 2_000_000_000 {
 		jail = 2_000_000_000
 	}
-	return map[string]any{"frac": p.SlashFraction.String(), "jail": jail, "tomb": p.Tombstone}
+	return map[string]any{"frac": p.SlashFraction.String(), "jail": jail, "tomb": p.Tombstone, "fracBp": p.SlashFraction.MulInt64(10000).TruncateInt64()}
 }
 
 func (w *World) infr(p providertypes.InfractionParameters) map[string]any {
